@@ -250,44 +250,54 @@ theorem C07_stable_twice (sh : Shared) (e : Expr) (paren : Bool) (prev : Option 
 
 /-! ### parse ∘ print -/
 
-/-- **The parser reads exppp's text back as the normal form.**  For every expression of the operator core (literals,
-identifiers, all 21 two-operand operators in any nesting, negation, NOT — `Core`), in top-level position, the precedence
-parser driven by the regenerated `%left/%right` levels and strata returns exactly `norm e` on the tokens of the printed
-expression.  Partial: qualifiers, function calls, aggregate initialisers and QUERY are outside `Core` (they are tied by
-the byte comparison and the oracle only); real literals must keep a non-digit in their printed form (`LitWF`). -/
-theorem C07_parse_print_core_partial (e : Expr) (hc : Core e) :
+/-- **The parser reads exppp's text back as the normal form — for the whole expression grammar.**  For every well-formed
+expression (`wfE`: literals, identifiers, all 21 two-operand operators in any nesting, negation, NOT, attribute `.` and group
+`\` qualifiers, index `[i]` and `[i:j]`, function calls with any number of arguments, aggregate initialisers with and without
+repetition counts, QUERY) the precedence parser driven by the regenerated `%left/%right` levels, strata, omit-parentheses
+dispatch and index-operand rule returns exactly `norm e` on the tokens exppp prints for `e` in top-level position.
+Hypotheses in `wfE`: argument/item lists are proper spines; a real literal's printed text keeps a non-digit (`LitWF`). -/
+theorem C07_parse_print (e : Expr) (hw : wfE e) :
     parse (toks Shared.clean e false none) = some (norm e) := by
-  obtain ⟨c, hc1, hc2, L⟩ := (parseOK_core e hc).loop false none
-  have hlen := toks_length_ge e hc false none
+  have E := ((parseOK_all e).1 hw).1
+  obtain ⟨c, hc1, hc2, L⟩ := E.loop false none
+  have hlen := (sz_le_toks e).1 hw false none
   have hcond : LoopCond e false none 0 [] := by
     cases e <;> simp [LoopCond, Fol]
-  have h := L (4 * (T e false none).length + 8) (by omega) 0 [] hcond (by simp [NoQ])
+  have h := L (8 * (T e false none).length + 8) (by omega) 0 [] hcond (by simp [NoQ])
   simp only [List.append_nil] at h
   unfold parse
-  show (match parseExpr (4 * (T e false none).length + 8) 0 (T e false none) with
+  show (match parseExpr (8 * (T e false none).length + 8) 0 (T e false none) with
         | some (e, []) => some e
         | _ => none) = some (norm e)
   rw [h]
-  obtain ⟨j, hj⟩ : ∃ j, 4 * (T e false none).length + 8 - c = j + 1 := ⟨4 * (T e false none).length + 8 - c - 1, by omega⟩
+  obtain ⟨j, hj⟩ : ∃ j, 8 * (T e false none).length + 8 - c = j + 1 := ⟨8 * (T e false none).length + 8 - c - 1, by omega⟩
   rw [hj, parseLoop_stop j 0 (norm e) [] (by simp [Fol])]
 
 /-- … hence the text is accepted by the expression grammar and denotes the source expression up to re-association of
 operators that are associative in EXPRESS -/
-theorem C07_parse_print_equiv_core_partial (e : Expr) (hc : Core e) :
+theorem C07_parse_print_equiv (e : Expr) (hw : wfE e) :
     ∃ e', parse (toks Shared.clean e false none) = some e' ∧ Equiv e e' :=
-  ⟨norm e, C07_parse_print_core_partial e hc, C07_norm_equiv e⟩
+  ⟨norm e, C07_parse_print e hw, C07_norm_equiv e⟩
 
 /-- … and printing what was read gives the same tokens again (second printing = first) -/
-theorem C07_reprint_core_partial (e : Expr) (hc : Core e) :
+theorem C07_reprint (e : Expr) (hw : wfE e) :
     (parse (toks Shared.clean e false none)).map (fun e' => toks Shared.clean e' false none)
       = some (toks Shared.clean e false none) := by
-  rw [C07_parse_print_core_partial e hc]
+  rw [C07_parse_print e hw]
   simp [C07_stable]
 
-example : Core (.bin .eq (.ident "x") (.bin .eq (.ident "x") (.lit (.int 1)))) :=
-  .bin _ (.ident _) (.bin _ (.ident _) (.lit _ trivial))
-example : parse (toks Shared.clean (.bin .minus (.ident "a") (.bin .minus (.ident "b") (.neg (.ident "c")))) false none)
-    = some (.bin .minus (.ident "a") (.bin .minus (.ident "b") (.neg (.ident "c")))) := by decide
+/-- the same inside every bracketing context exppp creates: as an index operand (a `simple_expression` position) the
+printed operand is read back whole, whatever follows the closing bracket -/
+theorem C07_parse_print_index_operand (i : Expr) (hw : wfE i) (r : List Tok) :
+    ∀ n, 4 * sz i ≤ n → parseExpr n simpleMin (toks Shared.clean i (indexParen i) none ++ .rb :: r) = some (norm i, .rb :: r) :=
+  fun n hn => bracket_operand i ((parseOK_all i).1 hw).1 n hn _ ⟨r, Or.inl rfl⟩
+
+example : wfE (.index (.dot (.ident "a") "b") (.bin .eq (.call "f" (.cons (.ident "x") (.cons (.lit (.int 1)) .nil))) (.ident "y"))) := by
+  simp [wfE, wfArgs, LitWF]
+example : parse (toks Shared.clean (.aggr (.rep (.bin .minus (.ident "a") (.bin .minus (.ident "b") (.neg (.ident "c"))))
+      (.lit (.int 3)) (.cons (.query "q" (.ident "l") (.bin .gt (.ident "q") (.lit (.int 2)))) .nil))) false none)
+    = some (.aggr (.rep (.bin .minus (.ident "a") (.bin .minus (.ident "b") (.neg (.ident "c"))))
+      (.lit (.int 3)) (.cons (.query "q" (.ident "l") (.bin .gt (.ident "q") (.lit (.int 2)))) .nil))) := by decide
 
 /-! ### literals, labels, shared nodes -/
 
